@@ -1,7 +1,7 @@
 import os, sys
 sys.path.insert(0, os.path.dirname(os.path.abspath(__file__)))
 from _lmf_common import IMPORTS as _I, SCOPES
-IMPORTS = _I + '\n@@RT_IMPORT@@'
+IMPORTS = _I + '\nRequire Import WnV.Proofs.LmfRoundTrip.'
 HEADER = '''WN-LMF load/dump is a lossless round trip (models: Model/XmlText.v = the serialisers of CPython that wn.lmf.dump uses
    (ElementTree _escape_attrib/_escape_cdata, xml.sax.saxutils.quoteattr) and what an XML parser makes of their output
    (xml_attr_value, xml_char_data: reference decoding, attribute-value and end-of-line normalisation per the XML
@@ -14,5 +14,16 @@ ITEMS = [
  ('thm', 'escape_cdata_wellformed'), ('thm', 'norm_ws_idempotent'), ('thm', 'norm_ws_normalize_eol'),
  ('comment', '---- the header dump writes is the header load accepts, for the version asked for'),
  ('thm', 'dump_header_accepted'), ('thm', 'supported_iff'),
- '@@RT_ITEMS@@',
+ ('comment', '---- the round trip, element kind by element kind: for a dictionary d in the normal form of its kind, the element dump builds for it is parsed and validated back into exactly d (exact equality incl. key order), at every indentation level; [iview]/[expat_view] = what expat reports for the serialised element'),
+ ('thm', 'tag_roundtrip'), ('thm', 'pron_roundtrip'), ('thm', 'dep_roundtrip'), ('thm', 'sb10_roundtrip'), ('thm', 'sb11_roundtrip'),
+ ('thm', 'example_roundtrip'), ('thm', 'definition_roundtrip'), ('thm', 'ilidef_roundtrip'), ('thm', 'relation_roundtrip'), ('thm', 'count_roundtrip'),
+ ('thm', 'lemma_roundtrip'), ('thm', 'xlemma_roundtrip'), ('thm', 'form_roundtrip'), ('thm', 'xform_roundtrip'),
+ ('thm', 'sense_roundtrip'), ('thm', 'xsense_roundtrip'), ('thm', 'synset_roundtrip'), ('thm', 'xsynset_roundtrip'),
+ ('thm', 'entry_roundtrip'), ('thm', 'xentry_roundtrip'), ('thm', 'lexicon_roundtrip'),
+ ('comment', '---- whole documents: load (dump R) = R for every resource R in normal form, in every supported version; the dumped file is exactly header ++ root tag ++ the lexicon texts ++ end tag, and dump is total on normal forms'),
+ ('thm', 'document_roundtrip'), ('thm', 'dump_load_roundtrip'), ('thm', 'dump_lexicon_xml'), ('thm', 'dump_text'), ('thm', 'dump_load_roundtrip_text'),
+ ('comment', '---- metadata and integers'),
+ ('thm', 'meta_dict_nf'), ('thm', 'parse_int_dec'),
+ ('comment', '---- non-vacuity: each normal form is inhabited (and props/C02.py evaluates nf_resource, through Proofs/LmfNfRun.v, on the resources the real load returns for files the real dump wrote, on every run)'),
+ ('thm', 'nf_lexicon_ex'), ('thm', 'nf_entry_ex'), ('thm', 'nf_xentry_ex'), ('thm', 'nf_synset_ex'), ('thm', 'nf_sense_ex'), ('thm', 'nf_meta_ex'),
 ]
